@@ -841,6 +841,14 @@ def c_method(I, fv, args, kw):
             return NONE
         if name == "extend":
             I.log_write(("cont", ref.ref))
+            a0 = I.resolve(args[0])
+            if isinstance(a0, VRef) and I.hobj(a0).kind == "symlist" and not any(isinstance(x, Guarded) for x in o.items):
+                # extending by a list of symbolic length: the list becomes (in place) the concatenation of its old self and the argument
+                from . import symlist
+                old = I.new_list(list(o.items))
+                cat = I.hobj(symlist.concat_lists(I, [old, a0], name="extended"))
+                o.kind, o.items, o.meta = "symlist", [], cat.meta
+                return NONE
             o.items.extend(I.iterate(args[0]))
             return NONE
         if name == "pop":
